@@ -283,7 +283,7 @@ def l2_adjust(d, it, types):
             lits.append(o.get("address_offset") or 0)
         elif k == "ref":
             if tgt["kind"] == "block":
-                return None, "block ref (D9)"
+                return None, "block ref (the L2 call renderer names blocks, not ref accessors; C04 covers block-ref paths)"
             t = ac.find_obj(d["objects"], o["target"])
             lits.append(tgt.get("address") if tgt.get("address") is not None else t["address"])
         else:
